@@ -59,6 +59,7 @@ func genC03(t *rapid.T) CaseC03 {
 			n.OutputKey = n.Key
 			n.PS = rapid.IntRange(0, 3).Draw(t, "ps") > 0
 			n.PostH = []string{"", "v", "s"}[rapid.IntRange(0, 2).Draw(t, "postH")]
+			n.PreH = []string{"", "", "v", "s"}[rapid.IntRange(0, 3).Draw(t, "preH")]
 			sp.Nodes = append(sp.Nodes, n)
 			e := gkit.Edge{From: n.Key, To: gkit.End}
 			if sp.Mode == "workflow" {
@@ -69,8 +70,16 @@ func genC03(t *rapid.T) CaseC03 {
 		}
 		if rapid.Bool().Draw(t, "stateFanFault") {
 			fi := rapid.IntRange(0, k-1).Draw(t, "stateFanFaultNode")
-			sp.Nodes[fi].PS = true
-			sp.Nodes[fi].Fault = "pspanic"
+			if rapid.Bool().Draw(t, "stateFanPreH") {
+				// the node's state pre-handler fails: the step's other nodes are either not started or waited for
+				if sp.Nodes[fi].PreH == "" {
+					sp.Nodes[fi].PreH = "v"
+				}
+				sp.Nodes[fi].Fault = "preherr"
+			} else {
+				sp.Nodes[fi].PS = true
+				sp.Nodes[fi].Fault = "pspanic"
+			}
 		}
 		c.Spec = sp
 	} else {
@@ -88,6 +97,8 @@ func genC03(t *rapid.T) CaseC03 {
 			fn.Fault = []string{"err", "panic"}[rapid.IntRange(0, 1).Draw(t, "faultKind")]
 			if fn.PS && rapid.Bool().Draw(t, "faultInStateHandler") {
 				fn.Fault = "pspanic"
+			} else if fn.PreH != "" && rapid.Bool().Draw(t, "faultInPreHandler") {
+				fn.Fault = "preherr"
 			}
 		}
 	}
@@ -216,6 +227,24 @@ func checkC03(c CaseC03) (*vkit.Failure, vkit.Meta) {
 					return &vkit.Failure{Kind: "outcome-depends-on-completion-order", Sig: "outcome-class", Msg: fmt.Sprintf("%s ended with %q, reference model says %q (err=%s)", name, got, want, shortErr(rs.err))}
 				}
 				if want != "" {
+					// a failing run of a graph executed in steps (no workflow level anywhere, every node leads to END) still
+					// collects what it started: no body is running when the call returns
+					var running []string
+					for _, u := range rs.unfinished {
+						failing := false
+						for _, ft := range ref.FaultTags {
+							if ft == u {
+								failing = true // a body that fails records no end
+							}
+						}
+						if !failing {
+							running = append(running, u)
+						}
+					}
+					if batchOnly(c.Spec) && len(ref.OptionalNodes) == 0 && len(running) > 0 {
+						rs.unfinished = running
+						return &vkit.Failure{Kind: "returned-before-node-finished", Sig: "failed-run-returned-before-started-nodes-finished", Msg: fmt.Sprintf("%s failed (%s) and returned while the bodies of %v, started in the same step, had not returned", name, shortErr(rs.err), rs.unfinished)}
+					}
 					continue
 				}
 				if gkit.Canon(rs.out) != gkit.Canon(ref.Out) {
@@ -276,4 +305,26 @@ func TestC03(t *testing.T) {
 func TestC03Replay(t *testing.T) {
 	c03Rec = vkit.NewRecorder("C03")
 	vkit.Replay(t, "C03", checkC03)
+}
+
+// batchOnly: the spec and every nested spec run in steps (pregel / dag / chain), none eagerly (workflow).
+func batchOnly(sp *gkit.Spec) bool {
+	if sp.Mode == "workflow" {
+		return false
+	}
+	ok := true
+	each := func(n *gkit.NodeSpec) {
+		if n.Sub != nil && !batchOnly(n.Sub) {
+			ok = false
+		}
+	}
+	for i := range sp.Nodes {
+		each(&sp.Nodes[i])
+	}
+	for si := range sp.Stages {
+		for i := range sp.Stages[si].Nodes {
+			each(&sp.Stages[si].Nodes[i])
+		}
+	}
+	return ok
 }
